@@ -125,13 +125,13 @@ func (c *PacketConn) ReadFrom(p []byte) (int, net.Addr, error) {
 		}
 		select {
 		case pk := <-c.in:
-			c.n.y.Y("simnet.udp.recv")
+			c.n.y.Y("simnet.udp.recv@" + c.addr.String())
 			n := copy(p, pk.data)
 			return n, pk.from, nil
 		case <-c.closed:
 			return 0, nil, net.ErrClosed
 		case <-timer:
-			c.n.y.Y("simnet.udp.timeout")
+			c.n.y.Y("simnet.udp.timeout@" + c.addr.String())
 			return 0, nil, ErrTimeout
 		case <-c.dlChange:
 		}
@@ -263,7 +263,7 @@ func (n *Net) ListenTCP(addr string) (*Listener, error) {
 func (l *Listener) Accept() (net.Conn, error) {
 	select {
 	case c := <-l.backlog:
-		l.n.y.Y("simnet.tcp.accept")
+		l.n.y.Y("simnet.tcp.accept@" + l.addr.String())
 		return c, nil
 	case <-l.closed:
 		return nil, net.ErrClosed
@@ -352,7 +352,7 @@ func (c *Conn) Read(p []byte) (int, error) {
 		}
 		select {
 		case chunk := <-c.rx:
-			c.n.y.Y("simnet.tcp.recv")
+			c.n.y.Y("simnet.tcp.recv@" + c.local.String() + "<" + c.remote.String())
 			if chunk == nil {
 				return 0, io.EOF
 			}
@@ -360,7 +360,7 @@ func (c *Conn) Read(p []byte) (int, error) {
 		case <-c.closed:
 			return 0, net.ErrClosed
 		case <-timer:
-			c.n.y.Y("simnet.tcp.timeout")
+			c.n.y.Y("simnet.tcp.timeout@" + c.local.String() + "<" + c.remote.String())
 			return 0, ErrTimeout
 		case <-c.dlChange:
 		}
